@@ -67,6 +67,8 @@ struct Forest {
     nunits: usize,
     entries: Vec<AEntry>,
     required: BTreeSet<usize>,
+    /// reference attributes of the unit root DIEs (pseudo entries with id usize::MAX)
+    roots: Vec<AEntry>,
 }
 
 // ---------------------------------------------------------------- parsing
@@ -139,6 +141,11 @@ fn parse_attr(s: &str) -> Option<AAttr> {
 }
 
 fn parse(a: &[&str]) -> Option<Forest> {
+    let (a, roots_tok) = match a.len() {
+        7 => (a, "-"),
+        8 => (&a[..7], a[7]),
+        _ => return None,
+    };
     let [_mode, ver, fmt, asz, nunits, entries, required] = a else { return None };
     let version: u16 = ver.parse().ok()?;
     let format = match *fmt {
@@ -148,6 +155,10 @@ fn parse(a: &[&str]) -> Option<Forest> {
     };
     let address_size: u8 = asz.parse().ok()?;
     let nunits: usize = nunits.parse().ok()?;
+    // guards shared with the Model driver: neighbourhood searches substitute boundary numbers
+    if !(2..=5).contains(&version) || !matches!(address_size, 1 | 2 | 4 | 8) || nunits > 64 || entries.len() > 1 << 16 {
+        return None;
+    }
     let mut es = Vec::new();
     if *entries != "-" {
         for (i, e) in entries.split(';').enumerate() {
@@ -183,7 +194,18 @@ fn parse(a: &[&str]) -> Option<Forest> {
             req.insert(r);
         }
     }
-    Some(Forest { enc: Encoding { version, format, address_size }, nunits, entries: es, required: req })
+    let mut roots: Vec<AEntry> = (0..nunits).map(|u| AEntry { id: usize::MAX, unit: u, parent: None, tag: 0x11, decl: false, attrs: vec![] }).collect();
+    if roots_tok != "-" {
+        for r in roots_tok.split(';') {
+            let (u, attrs) = r.split_once('=')?;
+            let u: usize = u.parse().ok()?;
+            if u >= nunits {
+                return None;
+            }
+            roots[u].attrs = if attrs == "-" { vec![] } else { attrs.split('|').map(parse_attr).collect::<Option<Vec<_>>>()? };
+        }
+    }
+    Some(Forest { enc: Encoding { version, format, address_size }, nunits, entries: es, required: req, roots })
 }
 
 // ---------------------------------------------------------------- building the input DWARF
@@ -236,26 +258,26 @@ fn tgt_entry(f: &Forest, b: &Built, me: &AEntry, t: Tgt, same_unit: bool) -> Opt
             }
             Some((b.unit_ids[u], b.roots[u]))
         }
-        Tgt::Oob => Some((b.unit_ids[me.unit], b.ids[me.id])),
+        Tgt::Oob => Some((b.unit_ids[me.unit], *b.ids.get(me.id)?)),
         Tgt::Mid(i) => {
             let e = f.entries.get(i)?;
             if same_unit && e.unit != me.unit {
                 return None;
             }
-            Some((b.unit_ids[me.unit], b.ids[me.id]))
+            Some((b.unit_ids[me.unit], *b.ids.get(me.id)?))
         }
     }
 }
 
 fn build_op(f: &Forest, b: &Built, me: &AEntry, op: &AOp, x: &mut Expression) -> Option<()> {
     match op {
-        AOp::Plain => x.op_constu(me.id as u64 + 1),
+        AOp::Plain => x.op_constu((me.id as u64).wrapping_add(1) & 0xffff),
         AOp::Call(t) => x.op_call(tgt_entry(f, b, me, *t, true)?.1),
         AOp::Param(t) => x.op_gnu_parameter_ref(tgt_entry(f, b, me, *t, true)?.1),
         AOp::Typed(t) => {
             // the operand is a ULEB128 unit offset: only real, earlier DIEs can be targets
             let Tgt::Ent(i) = *t else { return None };
-            if i >= me.id {
+            if i >= me.id && me.id != usize::MAX {
                 return None;
             }
             let base = tgt_entry(f, b, me, *t, true)?.1;
@@ -357,7 +379,7 @@ fn build_input(f: &Forest) -> Result<Secs, String> {
         }
         b.ids.push(id);
     }
-    for e in &f.entries {
+    for e in f.entries.iter().chain(f.roots.iter()) {
         let names = attr_names(&e.attrs).ok_or("too-many-attrs")?;
         for (a, name) in e.attrs.iter().zip(names) {
             let v = match a {
@@ -377,7 +399,8 @@ fn build_input(f: &Forest) -> Result<Secs, String> {
                     AttributeValue::LocationListRef(unit.locations.add(LocationList(l)))
                 }
             };
-            dwarf.units.get_mut(b.unit_ids[e.unit]).get_mut(b.ids[e.id]).set(name, v);
+            let eid = if e.id == usize::MAX { b.roots[e.unit] } else { b.ids[e.id] };
+            dwarf.units.get_mut(b.unit_ids[e.unit]).get_mut(eid).set(name, v);
         }
     }
     let mut sections = Sections::new(write::EndianVec::new(LittleEndian));
@@ -981,6 +1004,12 @@ fn lost_target(f: &Forest, kept: &BTreeSet<usize>, want_op: bool) -> bool {
 
 fn closure(f: &Forest, all_refs: bool, every_child: bool) -> BTreeSet<usize> {
     let mut s: BTreeSet<usize> = f.required.clone();
+    if all_refs {
+        // the unit root DIEs are always part of the output: what they reference must be kept
+        for r in &f.roots {
+            s.extend(refs_of(r, true));
+        }
+    }
     loop {
         let mut add = Vec::new();
         for e in &f.entries {
@@ -1012,7 +1041,9 @@ fn oracle(f: &Forest, filtered: &Conv, unfiltered: &Conv, fo: Option<&OutDwarf>,
         (Conv::ConvErr(e), Conv::Ok(_)) => {
             // label the two recorded findings: a reserved entry references, through a kind of
             // reference the filter does not record, an entry that was not reserved
+            let root_lost = |k: &BTreeSet<usize>| f.roots.iter().any(|r| refs_of(r, true).iter().any(|t| !k.contains(t)));
             let class = match kept {
+                Some(k) if root_lost(k) => "convfail-root-ref",
                 Some(k) if lost_target(f, k, true) => "convfail-unrecorded-op",
                 Some(k) if lost_target(f, k, false) => "convfail-skipped-loc",
                 _ => "convfail",
@@ -1316,6 +1347,27 @@ fn gen_forest(rng: &mut Rng, n: usize, nunits: usize, st: Style) -> Vec<GEntry> 
     es
 }
 
+/// reference attributes on unit root DIEs: to other roots (always resolvable, like
+/// DW_AT_import / DW_AT_base_types) and, in the finding stream, to DIEs
+fn gen_roots(rng: &mut Rng, nunits: usize, es: &[GEntry], to_dies: bool) -> String {
+    let mut v = Vec::new();
+    for u in 0..nunits {
+        if !rng.chance(1, 3) {
+            continue;
+        }
+        let mine: Vec<usize> = (0..es.len()).filter(|i| es[*i].unit == u).collect();
+        let a = if to_dies && !es.is_empty() && rng.chance(2, 3) {
+            if !mine.is_empty() && rng.chance(1, 2) { format!("r{}", rng.pick(&mine)) } else { format!("g{}", rng.below(es.len() as u64)) }
+        } else if rng.chance(1, 2) {
+            format!("rR{u}")
+        } else {
+            format!("gR{}", rng.below(nunits as u64))
+        };
+        v.push(format!("{u}={a}"));
+    }
+    if v.is_empty() { "-".into() } else { v.join(";") }
+}
+
 fn forest_line(enc: (u16, u8, u8), nunits: usize, es: &[GEntry], req: &[usize]) -> String {
     let ents: Vec<String> = es
         .iter()
@@ -1401,12 +1453,15 @@ pub fn gen(ctx: &Ctx, emit: &mut dyn FnMut(String)) {
             _ => plain,
         };
         let es = gen_forest(&mut rng, n, nunits, st);
+        let roots = if i % 4 == 1 { gen_roots(&mut rng, nunits, &es, st.finding_kinds) } else { "-".into() };
         for _ in 0..3 {
             let enc = rand_enc(&mut rng);
             let dens = rng.range(1, 6);
             let req: Vec<usize> = (0..es.len()).filter(|_| rng.chance(1, dens + 1)).collect();
             let l = forest_line(enc, nunits, &es, &req);
-            if nunits == 1 && i % 2 == 0 {
+            if roots != "-" {
+                emit(format!("{l} {roots}"));
+            } else if nunits == 1 && i % 2 == 0 {
                 emit(l.replacen("flt-conv", "flt-split", 1));
             } else {
                 emit(l);
